@@ -94,6 +94,10 @@ def main():
         "engines": [
             {"name": "hv", "path": "/verif/harness", "serves_properties": claimed,
              "kind_free_text": "Rust harness: proptest-driven generated-input search (16 deterministic workers, seeded from VERIF_SEED), reference models, shrinking to JSON replay files"},
+            {"name": "fuzz", "path": "/verif/fuzz", "serves_properties": [c for c in ["C01", "C04", "C05", "C06", "C07", "C08", "C09"] if c in claimed],
+             "kind_free_text": "cargo-fuzz / libFuzzer targets fz_c01, fz_c04, fz_num: bytes -> structured case -> the same check functions as the hv search; run by the thorough tier (16 jobs, -seed derived from VERIF_SEED); a crash artifact is the replay file"},
+            {"name": "python-cross-oracle", "path": "/verif/tools/xcheck_refnum.py", "serves_properties": [c for c in ["C05", "C06", "C07", "C09"] if c in claimed],
+             "kind_free_text": "python3 integers/fractions re-compute sampled records of the reference arithmetic (trusted base) and of the implementation (C05 stage)"},
         ],
         "checks": checks,
         "not_applicable": na,
